@@ -70,6 +70,8 @@ type NumEnt struct {
 	F32 []int `json:"f32"` // bits of the nearest float32
 	I   []int `json:"i"`   // canonical integer equal to the literal's value, or []
 	S   []int `json:"s"`   // float32 bits of float32(nearest float64)
+	X64 int   `json:"x64"` // 1 if the nearest float64 equals the literal exactly
+	X32 int   `json:"x32"` // 1 if the nearest float32 equals the literal exactly
 }
 
 // Trace is the record of one executed case.
